@@ -81,9 +81,9 @@ func c14Check(pg *Prog, expectCode int) func(x *vlab.Exec) []vlab.Violation {
 							lastRegular = e.Pos
 						}
 						lastStartedIdx = j
-						if e.K == 'F' && c.Exit != 0 && !c.IgnoreError && !t.IgnoreError && stop == len(t.Cmds) {
+						if e.K == 'F' && pg.ExitOf(in, j) != 0 && !c.IgnoreError && !t.IgnoreError && stop == len(t.Cmds) {
 							stop = j
-							failCode = c.Exit
+							failCode = pg.ExitOf(in, j)
 						}
 					}
 				}
@@ -222,7 +222,7 @@ func firstFailCode(pg *Prog, ev []vlab.PE, vpPrefix string) int {
 	for _, e := range ev {
 		if e.K == 'F' && e.Task != "" && strings.HasPrefix(e.VP, vpPrefix) && isFailure(pg, e) {
 			j, _ := e.CmdIndex()
-			return pg.Task(e.Task).Cmds[j].Exit
+			return pg.ExitOf(e.Inst(), j)
 		}
 	}
 	return 0
@@ -263,6 +263,17 @@ func c14Specs() map[string]*c14Spec {
 	m["nested-failing-callee-ignored"] = &c14Spec{code: 0, pg: &Prog{Tasks: []*T{
 		{Name: "root", IgnoreError: true, Cmds: []C{Call("sub"), P()}},
 		{Name: "sub", Cmds: []C{dfr(), P(), Fx(3), P()}}}}}
+	m["alias-and-wildcard"] = &c14Spec{code: 0, pg: &Prog{Tasks: []*T{
+		{Name: "root", Cmds: []C{{Call: &Ref{Task: "main", As: "m"}}, P(), {Call: &Ref{Task: "w-*", As: "w-x"}}, P()}},
+		{Name: "main", Aliases: []string{"m"}, Cmds: []C{dfr(), P()}},
+		{Name: "w-*", Cmds: []C{dfr(), P()}}}}}
+	m["same-task-twice-different-vars"] = &c14Spec{code: 0, pg: &Prog{Tasks: []*T{
+		{Name: "root", IgnoreError: true, Cmds: []C{
+			{Call: &Ref{Task: "sub", Vars: [][2]string{{"X", "one"}}}},
+			{Call: &Ref{Task: "sub", Vars: [][2]string{{"X", "two"}}}},
+			{Call: &Ref{Task: "flaky", Vars: [][2]string{{"CODE", "7"}}}}, {Call: &Ref{Task: "flaky", Vars: [][2]string{{"CODE", "0"}}}}, P()}},
+		{Name: "sub", Cmds: []C{{Defer: true, Extra: "{{.X}}"}, P()}},
+		{Name: "flaky", Cmds: []C{dfr(), {ExitVar: "CODE"}, P()}}}}}
 	m["cancelled-by-sibling"] = &c14Spec{code: -1, pg: &Prog{Tasks: []*T{
 		{Name: "root", Deps: []Ref{D("main"), D("failer")}},
 		{Name: "main", Cmds: []C{dfr(), P(), dfr(), P(), P()}},
